@@ -10,7 +10,7 @@ from pbt import files, gridded as G
 from pbt.core import call
 
 PROP = "C13"
-TECHNIQUE = "model-based testing over operation histories: exhaustive enumeration of all operation sequences up to length 3 (thorough 4) on every configuration + Hypothesis-sampled longer sequences on generated forecasts; invariants checked after every step against a reference list of filtered catalogs"
+TECHNIQUE = "model-based / stateful testing over operation histories: Hypothesis RuleBasedStateMachine + exhaustive enumeration of all operation sequences up to length 3 (thorough 4) on every configuration + Hypothesis-sampled longer sequences; invariants checked after every step against a reference list of filtered catalogs"
 RULE = ("one case = small catalog forecast (1..6 synthetic catalogs, some empty, some events removed by the configured filters) x configuration "
         "{in-memory list, file loader store=True, file loader store=False} x {no filters, magnitude+time filters with apply_filters=True} x "
         "{filter_spatial off, on} x operation sequence over {iterate, get_event_counts, get_expected_rates, spatial_counts, magnitude_counts, "
